@@ -12,5 +12,5 @@ OBLIGATIONS = [
        variants=[{'OP': 4}], unwind=120, timeout=600, mem_gb=12, wrap_files=True, nvec=6, flags=['--max-field-sensitivity-array-size', '400']),
 ]
 BOUNDS = 'one two-element cell, every field value symbolic; time-stamp rewrite on the element-free skeleton of the same file'
-OUTSIDE = 'raw-cell copying (read_rawcells + RawCell::to_gds / GdsWriter): not decided in this round; non-power-of-two unit ratios beyond the 1e-3 example; files with several cells'
+OUTSIDE = 'raw-cell copying (read_rawcells + RawCell::to_gds: the harness harness/C17/rawcopy.c exists, the query ran 600 s without verdict in symbolic execution and is not part of the check), GdsWriter; non-power-of-two unit ratios beyond the 1e-3 example; files with several cells'
 ASSUMPTIONS = ['in-memory FILE model', 'exp2 contract', 'hash<Tag> an arbitrary function']
